@@ -59,6 +59,9 @@ CORE_SMILES = [
     'C1CNCCN1', 'C1CN1', 'CN1CCOCC1', 'NCCO', 'OCCNCCO',                                                       # symmetric match sites for wildcard-first queries
     'Cc1cn2ccsc2n1', 'N1C=Cn2cccc12', 'c1ccc2c(c1)[nH]c1ccccc21', 'C1=CC2=CC=CN2C=C1',                        # fused hetero rings (scoped matching inside thiele)
     'CN(C)(C)=O', 'CN(=O)=O', 'C[S+](C)[O-]', 'CN=[N+]=[N-]', 'C=[N+]=[N-]',                                   # standardisation groups
+    'CC(O)=O.CC[O-]', 'Oc1ccccc1.[OH-]', 'OC(=O)CCC([O-])=O', 'CC(O)=O.C[NH3+]', 'Cl.CC[O-]',                  # acid next to a base (rule-table driven proton moves)
+    'CN.Cl', 'C[NH3+].[Cl-]', 'CC(O)=O.CN', 'COC=O.CN', 'CCN.CC([O-])=O', 'CCN(CC)CC.OC(=O)C=CC(O)=O',         # twin counter-ions: same composition, acid / anion / isomer
+    'CCN(CC)CC.OC(=O)C(=C)C(O)=O', 'CCO.CN', 'CCCC[O-]', 'C[N+](C)(C)CCO.[Cl-]', 'OC(=O)C',                    # ... and atoms of one kind with / without charge
 ]
 _CORE_SET = set(CORE_SMILES)
 FILES = ['isomorphism.sdf', 'mcs.sdf', 'standardize.sdf', 'arenes.sdf', 'hbonds.sdf', 'depict.sdf', 'implicit.sdf',
@@ -182,6 +185,38 @@ def make_events(rng, n_mols, tier, cfg, corpus=None):
     return out
 
 
+def make_solo_jobs(base, corpus, tier):
+    """Executions without history: one observer alone over the core molecules, and one core molecule alone under every
+    observer, each in its own fresh interpreter.  Compared with the long mixed executions they expose results that depend on
+    what the same process did before (growing process-global tables, memos keyed too coarsely, first-use order)."""
+    rng = random.Random(core.derive_seed(base, PROP, 'solo'))
+    core_m = [i for i, c in enumerate(corpus) if c[0] == 'smi' and c[1] in _CORE_SET]
+    core_r = [i for i, c in enumerate(corpus) if c[0] in ('rxnsmi', 'rxnfile')][:12]
+    names = CHEAP + MEDIUM + EXPENSIVE
+    sm = ['smarts%d%s' % (k, v) for k in range(N_SMARTS) for v in ('', '_all')]
+    names = names + (rng.sample(sm, 8) if tier == 'quick' else sm)
+    jobs = []
+    for n in names:
+        order = list(core_m)
+        rng.shuffle(order)
+        ev = []
+        for i in order:
+            ev += [['load', i], ['obs', i, n, 'solo-observer'], ['drop', i]]
+        jobs.append({'config': draw_config(rng, 2), 'corpus': corpus, 'events': ev, 'solo': 'observer:' + n})
+    for n in (rng.sample(RXN_OBS, 8) if tier == 'quick' else RXN_OBS):
+        ev = []
+        for i in core_r:
+            ev += [['load', i], ['obs', i, n, 'solo-observer'], ['drop', i]]
+        jobs.append({'config': draw_config(rng, 2), 'corpus': corpus, 'events': ev, 'solo': 'observer:' + n})
+    mols = rng.sample(core_m, min(len(core_m), 24)) if tier == 'quick' else core_m
+    for i in mols:
+        ns = CHEAP + MEDIUM + EXPENSIVE + ['smarts%d%s' % (k, rng.choice(['', '_all'])) for k in range(N_SMARTS)]
+        rng.shuffle(ns)
+        ev = [['load', i]] + [['obs', i, n, 'solo-molecule'] for n in ns] + [['drop', i]]
+        jobs.append({'config': draw_config(rng, 2), 'corpus': corpus, 'events': ev, 'solo': 'molecule:%d' % i})
+    return jobs
+
+
 def run_job(job, tag, scratch, timeout=1500):
     jp = os.path.join(scratch, f'job-{tag}.json')
     op = os.path.join(scratch, f'out-{tag}.json')
@@ -235,9 +270,14 @@ def classify(obs):
     return 'cross-process', exs[0], exs[-1]
 
 
-def minimise(key, jobs, a, b, scratch, budget_n=40):
+def minimise(key, jobs, a, b, scratch, budget_n=40, deadline=None):
     """Reduce the two diverging executions to the events of the one molecule, then ddmin the events."""
     i, name = key
+    budget = [budget_n]
+
+    def _tick():
+        if deadline is not None and time.time() > deadline:
+            budget[0] = 0
 
     def restrict(job):
         ev = []
@@ -256,7 +296,6 @@ def minimise(key, jobs, a, b, scratch, budget_n=40):
         _, bad = compare(res)
         return (0, name) in bad
 
-    budget = [budget_n]
     budget[0] -= 1
     kidx = 0
     if not diverges(pair):
@@ -277,6 +316,9 @@ def minimise(key, jobs, a, b, scratch, budget_n=40):
             return None, 0
     for k in range(len(pair)):
         def test(events, k=k):
+            _tick()
+            if budget[0] <= 0:
+                return False
             cand = list(pair)
             cand[k] = dict(pair[k], events=events)
             return diverges(cand)
@@ -349,7 +391,7 @@ def _main(a, scratch):
                                                                              or '[O]' in c[1] or '[CH]' in c[1] or '>N>' in c[1] or '[K+]' in c[1] or 'ClCCl' in c[1])]
     first = core_idx + [k for k in special[:n // 4] if k not in set(core_idx)]
     chosen = (first + [k for k in idx if k not in set(first)])[:max(n, len(core_idx) + 40)]
-    slice_n = T.get('slice', n)
+    slice_n = T.get('slice', len(chosen))
     slices = [chosen[k:k + slice_n] for k in range(0, len(chosen), slice_n)]
 
     probes = Counter()
@@ -358,6 +400,9 @@ def _main(a, scratch):
     keys_compared = 0
     configs_used = set()
     errors, found, samples = [], [], []
+    n_solo = 0
+    min_spent = 0.0
+    min_cap = 240 if tier == 'quick' else 900          # wall budget of all minimisation of one run
     workers = int(os.environ.get('VERIF_WORKERS', '0')) or min(16, os.cpu_count() or 1)
     for si, sl in enumerate(slices):
         corpus = [corpus_all[k] for k in sl]
@@ -371,6 +416,12 @@ def _main(a, scratch):
             probes['exec:aslr_%s' % ('on' if cfg['aslr'] else 'off')] += 1
             probes['exec:gc_' + cfg['gc']] += 1
             probes['exec:junk_%d' % cfg['junk']] += 1
+        if si == 0:
+            solo = make_solo_jobs(base, corpus, tier)
+            jobs += solo
+            n_solo += len(solo)
+            for j in solo:
+                probes['exec:solo_' + j['solo'].split(':')[0]] += 1
         if not samples:
             samples.append({'config': jobs[2 % len(jobs)]['config'], 'corpus_head': corpus[:3], 'events_head': jobs[2 % len(jobs)]['events'][:40]})
         results = []
@@ -398,11 +449,13 @@ def _main(a, scratch):
                 groups[g] = (key, obs, ea, eb)
         for (cls, oname), (key, obs, ea, eb) in sorted(groups.items())[:6]:
             kidx = 0
+            tm = time.time()
             try:
-                pair, kidx = minimise(key, jobs, ea, eb, scratch)
+                pair, kidx = minimise(key, jobs, ea, eb, scratch, deadline=tm + max(20.0, min(90.0, min_cap - min_spent)))
             except Exception as e:
                 errors.append((-1, 'minimise failed: ' + traceback.format_exc()[-800:]))
                 pair = None
+            min_spent += time.time() - tm
             if pair is None:
                 errors.append((-1, f'divergence on {key} did not reproduce in isolation (class {cls})'))
                 found.append({'class': f'{cls}:{key[1]}', 'key': [0, key[1]], 'jobs': None, 'unreproduced': True,
@@ -463,11 +516,11 @@ def _main(a, scratch):
                     'distinct (molecule, observer) keys whose digest was compared across at least two observations (other process / '
                     'hash seed / ASLR / GC mode, cached, after flush, on the copy, copy first).',
             'samples': samples or [{'note': 'none'}],
-            'executions': T['execs'] * len(slices), 'molecules': len(chosen), 'corpus_size': len(corpus_all),
+            'executions': T['execs'] * len(slices) + n_solo, 'solo_executions': n_solo, 'molecules': len(chosen), 'corpus_size': len(corpus_all),
             'distinct_configurations': len(configs_used),
             'observers': len(CHEAP) + len(MEDIUM) + len(EXPENSIVE) + 2 * N_SMARTS + len(RXN_OBS),
             'observations_per_hour': int(total_obs / max(wall, 1e-9) * 3600),
-            'executions_per_hour': int(T['execs'] * len(slices) / max(wall, 1e-9) * 3600),
+            'executions_per_hour': int((T['execs'] * len(slices) + n_solo) / max(wall, 1e-9) * 3600),
             'fault_kinds': 'none in the classical sense: perturbation of hash seed, address-space layout, GC mode, heap layout, '
                            'first-use order and evaluation schedule (counts under probes exec:*)',
             'probes': dict(sorted(probes.items())),
@@ -482,7 +535,7 @@ def _main(a, scratch):
     if errors:
         payload['coverage']['harness_errors'] = [e[1][-400:] for e in errors[:5]]
     core.write_evidence(PROP, payload)
-    print(f'[{PROP}] executions={T["execs"] * len(slices)} molecules={len(chosen)} observations={total_obs} keys={keys_compared} '
+    print(f'[{PROP}] executions={T["execs"] * len(slices)}+{n_solo} solo molecules={len(chosen)} observations={total_obs} keys={keys_compared} '
           f'wall={wall:.1f}s violations={reported} known={len(known_hit)} harness_errors={len(errors)}', flush=True)
     if errors and exit_code == core.EXIT_OK:
         for i, e in errors[:3]:
